@@ -34,7 +34,8 @@ EXTENDS JournalRand, Json
 CONSTANTS MaxEntries
 
 Junk == << "@", "@@", "=", "==", "(", ")", "[", "]", "\"", "|", ";", "*", "!", "-", "+", ":", ",", ".",
-           "", "", "", "\"unterminated", "((((", "1E99999999" >>
+           "", "", "", "\"unterminated", "((((", "1E99999999",
+           " lunch with Bob", " {$150.00}", " 5 EUR" >>      \* text the posting grammar has no slot for: a note without its semicolon, a lot price, a second amount
 
 DropLine(s, l) == SubSeq(s, 1, l - 1) \o SubSeq(s, l + 1, Len(s))
 
@@ -58,7 +59,9 @@ DamagesOf(lines, lex, coupled) ==
     \cup { [k |-> "del", l |-> l, c |-> 0, j |-> 0] : l \in (IF coupled THEN 2..n ELSE 1..n) }
     \cup { [k |-> "dup", l |-> l, c |-> 0, j |-> 0] : l \in 1..n }
     \cup { [k |-> "swap", l |-> l, c |-> 0, j |-> 0] : l \in (IF coupled THEN 2..(n - 1) ELSE 1..(n - 1)) }
-    \cup UNION { { [k |-> "ins", l |-> l, c |-> c, j |-> j] : c \in Boundaries(lines[l], lex[l]), j \in 1..Len(Junk) } : l \in 1..n }
+    \* junk that begins with a blank is not put at the very beginning of a line: an indented line belongs to the entry ABOVE it
+    \cup UNION { { d \in { [k |-> "ins", l |-> l, c |-> c, j |-> j] : c \in Boundaries(lines[l], lex[l]), j \in 1..Len(Junk) } :
+                        d.c > 0 \/ SubSeq(Junk[d.j], 1, 1) # " " } : l \in 1..n }
     \cup UNION { { [k |-> "dropc", l |-> l, c |-> c, j |-> 0] : c \in Closers(lines[l]) } : l \in 1..n }
 
 IsTarget(e) == IsTx(e) \/ e.dir \in {"account", "commodity", "include", "P", "Y", "D"}
